@@ -18,19 +18,25 @@ Features ==
       "environment" }            \* environment obstacle
 Ops ==
     { "occupancy", "state", "scenario_queries", "lanelet_lookup", "lanelet_geometry", "light", "is_reached",
-      "goal_reached", "eq", "hash", "deepcopy", "pickle", "draw", "draw_render", "write_xml", "write_pb" }
+      "goal_reached", "eq", "hash", "deepcopy", "pickle", "draw", "draw_render", "write_xml", "write_pb",
+      \* copying is read-only for the ORIGINAL also when the copy is edited afterwards (copy independence):
+      \* the copy is made, then moved / given a new sign on a lanelet / stripped of a sign, an obstacle, a lanelet
+      "edit_deepcopy", "edit_pickle", "edit_network_copy", "edit_network_from_list" }
 
 (* observable snapshot of the model: which optional pieces of data exist.  Side effects known to  *)
 (* be possible in an implementation are modelled as named deviations so that TLC shows the frame  *)
 (* condition is violated exactly by them.                                                         *)
 Snap0(arch) == [orientationAttr |-> FALSE,                      \* custom states carry an orientation attribute
-                goalKeys |-> IF "goal_partial_lanelets" \in arch THEN {0} ELSE {0, 1}]
+                goalKeys |-> IF "goal_partial_lanelets" \in arch THEN {0} ELSE {0, 1},
+                shared |-> FALSE]                               \* a sub-object of a lanelet was changed through a copy
 Effect(dev, arch, warm, op, s) ==
     CASE dev.occAddsOrientation /\ op \in {"occupancy", "scenario_queries", "draw", "draw_render"}
               /\ "custom_no_orientation" \in arch /\ "occ" \notin warm
            -> [s EXCEPT !.orientationAttr = TRUE]
       [] dev.pbWriteTouchesDefaultdict /\ op = "write_pb" /\ "goal_defaultdict" \in arch
            -> [s EXCEPT !.goalKeys = {0, 1}]
+      [] dev.networkCopyShallow /\ op = "edit_network_copy"
+           -> [s EXCEPT !.shared = TRUE]
       [] OTHER -> s
 Warm(warm, op) == IF op \in {"occupancy", "scenario_queries", "draw", "draw_render"} THEN warm \cup {"occ"} ELSE warm
 ===================================================================================
